@@ -2,7 +2,7 @@
 (* LogQL query structure (C05): the "wire" form of a query AST - what logql.Parse must produce for the text that is
    written from the AST - and the static rules of the grammar.
    Anchors: internal/logql/parser*.go, metric_expr.go, pipeline.go, op.go. *)
-EXTENDS Integers, Sequences, FiniteSets, Num, JsonDoc, Tmpl, Pattern
+EXTENDS Integers, Sequences, FiniteSets, Num, JsonDoc, Tmpl, Pattern, Regex
 
 NormPair(p) == LET r == Norm(p[1], p[2]) IN <<r.n, r.d>>
 WireMatchers(ms) == [k \in DOMAIN ms |-> [label |-> ms[k].label, op |-> ms[k].op, val |-> ms[k].val]]
@@ -19,6 +19,8 @@ WireStage(st) ==
     [] st.t = "json" -> [t |-> "json", labels |-> st.labels, exprs |-> [k \in DOMAIN st.exprs |-> <<st.exprs[k].label, PathText(st.exprs[k].path, TRUE)>>]]
     [] st.t = "logfmt" -> [t |-> "logfmt", labels |-> st.labels, exprs |-> [k \in DOMAIN st.lexprs |-> <<st.lexprs[k].label, st.lexprs[k].key>>]]
     [] st.t = "pattern" -> [t |-> "pattern", txt |-> PatText(st.parts)]
+    \* the regexp stage: its text and which capture index carries which name (groups count from 1 in order of "(")
+    [] st.t = "regexp" -> [t |-> "regexp", txt |-> st.val, names |-> CapNames(st.re)]
     [] st.t \in {"unpack", "decolorize"} -> [t |-> st.t]
     [] st.t = "linefmt" -> [t |-> "linefmt", txt |-> TmplText(st.parts)]
     [] st.t = "labelfmt" -> [t |-> "labelfmt", renames |-> [k \in DOMAIN st.renames |-> <<st.renames[k].dst, st.renames[k].src>>],
